@@ -36,10 +36,19 @@ def run_one(prop, tier, repo_root=None, out=print):
     ctx = Ctx(prop, repo, tier)
     try:
         ctx = analyse(prop, repo, tier)
+        selfcheck_error = None
         if tier == 'thorough':
             from .selfcheck import runner
-            runner.validate(prop, ctx, out=out)
-        return finish(ctx, t0, seed, out=out)
+            try:
+                runner.validate(prop, ctx, out=out)
+            except AnalysisError as e:
+                selfcheck_error = e
+        rc = finish(ctx, t0, seed, out=out)
+        if selfcheck_error is not None and rc == 0:
+            raise selfcheck_error
+        if selfcheck_error is not None:
+            out('note: %s (the property verdict above stands)' % selfcheck_error)
+        return rc
     except AnalysisError as e:
         out('ANALYSIS-ERROR property=%s %s' % (prop, e))
         ctx.explanation = ctx.explanation or 'analysis error: %s' % e
